@@ -27,7 +27,8 @@ FAMILY = {"array_int": "array_new", "array_float": "array_new", "array_bool": "a
           "pad_left_mb": "string_pad", "pad_right_mb": "string_pad", "concat_double": "string_concat",
           "replace_sq": "string_product", "join_sq": "string_product", "str_literal": "string_literal",
           "vec_new_lit": "vec_literal", "closures": "closure", "churn": "closure_churn", "churn_mix": "object_churn", "churn_over": "closure_churn",
-          "bytes_many": "bytes_alloc", "bytes_clone": "bytes_alloc", "bytes_resize": "bytes_alloc", "bytes_cycle": "bytes_alloc", "bytes_from_string": "bytes_alloc", "fs_read_bytes": "fs_read_bytes"}
+          "bytes_many": "bytes_alloc", "bytes_clone": "bytes_alloc", "bytes_resize": "bytes_alloc", "bytes_cycle": "bytes_alloc", "bytes_from_string": "bytes_alloc", "fs_read_bytes": "fs_read_bytes",
+          "net_udp_recv_from": "net_recv", "net_udp_recv": "net_recv", "net_recv_bytes": "net_recv", "net_recv": "net_recv"}
 # bytes per unit of the size argument
 UNIT = {"array_int": 8, "array_float": 8, "array_obj": 8, "array_bool": 1, "vec_push": 8, "vec_push_float": 8, "vec_push_obj": 8,
         "vec_push_bool": 1, "vec_reserve": 8, "vec_reserve_float": 8, "vec_reserve_obj": 8, "vec_reserve_bool": 1, "manual_alloc": 8,
@@ -187,7 +188,8 @@ def oracle(ctx, r, const, stats):
     neg_ok = r["size"] < 0 and (r["op"] in ("manual_alloc", "manual_reuse", "array_int", "array_float", "array_bool", "array_obj") or fam == "vec_reserve")
     bytes_ok = fam == "bytes_alloc" and (r["size"] <= 0 or r["size"] > (256 << 20))
     fs_ok = fam == "fs_read_bytes" and (r["size"] < 0 or r["size"] > (16 << 20))
-    if kind == 3 and not (neg_ok or bytes_ok or fs_ok):
+    net_ok = fam == "net_recv" and r["size"] > (16 << 20)
+    if kind == 3 and not (neg_ok or bytes_ok or fs_ok or net_ok):
         ctx.violation(f"unexpected-kind:{fam}", "TypeError", rep)
     # guarded loops (vec literals, closures): Ok or OutOfMemory, and OutOfMemory only near the limit
     if r["op"] in ("vec_new_lit", "closures") and kind == 1 and r["a0"] + r["delta"] + 4096 < r["limit"]:
@@ -196,6 +198,20 @@ def oracle(ctx, r, const, stats):
     # the operation and again after a forced collection (recomputed from the heap itself: Heap::estimate_object_size over
     # every occupied slot).  sweep subtracts the estimate an object has when it dies: an estimate that changed since the
     # allocation without going through account_growth shows up here
+    # std.net receive natives (loopback peer inside the child answers with 13 bytes): the receive buffer is built for the REQUESTED maximum
+    # (net.recv: a 64 KiB chunk buffer), so the limit has to be consulted for that size before the buffer exists
+    if fam == "net_recv":
+        nreq = 24 + (65536 if r["op"] == "net_recv" else max(r["size"], 0))
+        u0 = r["a0"] + (c if c is not None else 0)
+        if kind == 0 and u0 + nreq > r["limit"]:
+            ctx.violation("granted-over-limit:net_recv", f"{r['op']}: a receive buffer of {nreq - 24} bytes granted with {u0} in use, limit {r['limit']}", rep)
+        if kind == 1 and u0 + nreq + 4096 <= r["limit"]:
+            ctx.violation("refused-under-limit:net_recv", f"{r['op']}: a receive buffer of {nreq - 24} bytes refused with {u0} in use, limit {r['limit']}", rep)
+        if ev["uncovered"] > 0:
+            ctx.violation("host-alloc-uncovered:net_recv", f"{r['op']}: the host allocator was asked for {ev['first_uncovered']} bytes without a preceding granted limit check "
+                          f"that covers them (max_heap_bytes {r['limit']})", rep)
+        if kind == 1 and ev["nhost"] > 0:
+            ctx.violation("host-alloc-before-check:net_recv", f"{r['op']}: refused, but the host allocator had been asked for a block of {ev['maxhost']} bytes", rep)
     # byte buffers are data the program holds: what the VM holds in them is part of the counter the limit is checked against
     byt = ev.get("byt")
     if byt and byt[0] > byt[1]:
